@@ -340,6 +340,11 @@ psRes_t psPkcs8ParsePrivBin(psPool_t *pool,
             psTraceCrypto("PKCS#8 decryption error\n");
             return PS_FAILURE;
         }
+        if ((len % DES3_BLOCKLEN) != 0)
+        {
+            psTraceCrypto("PKCS#8 ciphertext is not a multiple of the block size\n");
+            return PS_FAILURE;
+        }
         /* Derive the 3DES key and decrypt the RSA key*/
         psPkcs5Pbkdf2((unsigned char *) pass, (int32) Strlen(pass),
             (unsigned char *) salt, 8, icount, (unsigned char *) desKeyBin,
